@@ -266,9 +266,12 @@ def run_sequences(ctx, nseq, tdir):
             r = rng.random()
             path0 = list(sys.path)
             dwb0 = sys.dont_write_bytecode
+            reg0 = {k: id(v) for k, v in model.models_available.items()}
             if r < 0.35:
                 kind = rng.choice(["valid", "valid", "anc", "dup", "short", "nofunc", "samekey"])
-                key = rng.choice(live) if (kind == "samekey" and live) else f"seq{s}_{len(lines)}"
+                # (a valid module, or a faulty one, may carry the key of a model that is already registered)
+                collide = live and (kind == "samekey" or (kind in ("dup", "short", "nofunc") and rng.random() < 0.5))
+                key = rng.choice(live) if collide else f"seq{s}_{len(lines)}"
                 m = base_module(key, anc=(kind == "anc"))
                 if kind == "dup":
                     m.parameter_names = ["X", "X"] + m.parameter_names[2:]
@@ -281,7 +284,7 @@ def run_sequences(ctx, nseq, tdir):
                 lines.append({"op": "register", "desc": desc_m})
                 if got.startswith("ok") and key not in live:
                     live.append(key)
-                descr.append(f"register {kind} {key}")
+                descr.append(f"register {kind} {key}" + (" (key already registered)" if collide else ""))
             elif r < 0.6:
                 key = rng.choice(live) if (live and rng.random() < 0.7) else "never_registered"
                 try:
@@ -356,6 +359,9 @@ def run_sequences(ctx, nseq, tdir):
             if got.startswith("err") and sorted(live) != our_keys():
                 ctx.violation("registry-changed-on-reject", f"{descr[-1]} was rejected but the registry changed",
                               {"history": descr[-6:], "observed": our_keys(), "expected": sorted(live)})
+            if got.startswith("err") and reg0 != {k: id(v) for k, v in model.models_available.items()}:
+                ctx.violation("registry-changed-on-reject", f"{descr[-1]} was rejected but the registry entries changed",
+                              {"history": descr[-6:], "observed": sorted(set(reg0) ^ set(model.models_available))})
             if not got.startswith("err") and sorted(live) != our_keys():
                 ctx.violation("registry-keys", f"after {descr[-1]} the registry keys are not as expected",
                               {"history": descr[-6:], "observed": our_keys(), "expected": sorted(live)})
